@@ -146,6 +146,13 @@ def run(ctx, case):
         elif i != 0:
             texp = 3.6 * cap0 / i
             ctx.check("deplete.duration", abs(t - texp) <= 1e-12 * abs(texp), dict(det, duration_received=t, expected=texp))
+    import math as _m
+
+    if any(not _m.isfinite(c[2]) or not _m.isfinite(c[1]) for c in dcalls):
+        # the battery was overloaded at some step (no steady state; batt_life uses the bare solver, finding F2):
+        # the time axis of such a run is meaningless and the run is outside the quantifier
+        ctx.count("outcome", "overloaded battery: non-finite current handed to dfunc (log not judged)")
+        return
     # --- the log ----------------------------------------------------------------------------------------
     rows = log.to_dict("records")
     first = st_at(0)
